@@ -68,7 +68,14 @@ def gen_case(rng, big=False):
     # under frame pointers at most 128 ABI locals live in the frame; the rest fall back to scratch slots
     if sub and version >= 8 and fp is not False:
         rest -= max(0, sub["n_abi"] - 120)
-    return {"n_auto": max(rest, 0), "explicit": ids, "n_abi": n_abi, "n_dyn": n_dyn, "n_mv": n_mv, "sub": sub, "version": version,
+    # explicitly numbered variables that are only ever reached through their index (a DynamicScratchVar alias or a by-reference
+    # parameter), with ids low enough for automatic numbering to arrive at them
+    index_only = []
+    if rest >= 8 and rng.random() < .4:
+        lows = [i for i in range(min(rest - 4, 40)) if i not in ids]
+        index_only = rng.sample(lows, min(len(lows), rng.choice([1, 1, 2])))
+        rest -= 2 * len(index_only)
+    return {"n_auto": max(rest, 0), "explicit": ids, "index_only": index_only, "n_abi": n_abi, "n_dyn": n_dyn, "n_mv": n_mv, "sub": sub, "version": version,
             "ss": rng.choice([None, False, True]), "fp": fp, "order": rng.randrange(10**9), "bytes_every": rng.choice([0, 3, 5])}
 
 
@@ -148,6 +155,21 @@ def build(pt, case):
         chain(m.to_bytes(8, "big"))
         steps.append(pt.Assert(d.index() == t[1].index()))
         dyns.append(d)
+    # variables with a requested id that are only reached through index()
+    index_only = []
+    for sid in case.get("index_only", []):
+        w = pt.ScratchVar(pt.TealType.uint64, sid)
+        d = pt.DynamicScratchVar(pt.TealType.uint64)
+        m = marker(False)
+        if sid % 2:
+            def put(ref: pt.ScratchVar, val):
+                return ref.store(val)
+            put.__name__ = "put%d" % sid
+            steps.append(pt.Subroutine(pt.TealType.none)(put)(w, I(m)))
+        else:
+            steps += [d.set_index(w), d.store(I(m))]
+        index_only.append((w, d, m, sid))
+        exp["explicit_final"][sid] = m  # (not a unique-placement marker: a by-reference helper's own parameter slot holds it too)
     # MaybeValue temporaries live across the read-back
     mvs = []
     for i in range(case["n_mv"]):
@@ -193,7 +215,7 @@ def build(pt, case):
             subr = pt.Subroutine(pt.TealType.uint64)(body)
             steps.append(absorb(pt.Itob(subr(I(2)))))
         chain((3).to_bytes(8, "big"))
-    exp["n_live"] = len(vars_) + len(dyns) + 2 * len(mvs)
+    exp["n_live"] = len(vars_) + len(dyns) + 2 * len(mvs) + 2 * len(index_only)
     # read everything back in another order
     order2 = list(range(len(vars_)))
     rng.shuffle(order2)
@@ -201,13 +223,17 @@ def build(pt, case):
         v = vars_[i]
         steps.append(absorb(getv_bytes(v)))
         chain(expect_bytes(v))
+    for w, d, m, sid in index_only:
+        steps += [d.set_index(w), absorb(pt.Itob(d.load())), pt.Log(pt.Itob(d.index()))]
+        chain(m.to_bytes(8, "big"))
+        exp["index_logs"].append(sid.to_bytes(8, "big"))
     for mv in mvs:
         steps.append(absorb(pt.Itob(mv.hasValue())))
         chain((0).to_bytes(8, "big"))
     # explicitly numbered variables that are stored and read exactly once, back to back: the slot optimiser must leave requested
     # ids alone (they are visible to other transactions through gload), so the value must still be in the slot at exit
     if exp["n_live"] <= 240:
-        free = [i for i in range(256) if i not in case["explicit"]]
+        free = [i for i in range(256) if i not in case["explicit"] and i not in case.get("index_only", [])]
         for sid in rng.sample(free, 2):
             w = pt.ScratchVar(pt.TealType.uint64, sid)
             m = marker(False)
